@@ -112,7 +112,7 @@ def run(ck, F):
                     if k != 'return':
                         continue
                     fin = s2.symstore.get(indent_fld, indent_fld)
-                    if fin != indent_fld:
+                    if _linear(fin) != _linear(indent_fld):
                         drift.append(contracts.render(fin, s2, {}))
                 ck.check(R4, inst, not drift, f'{inst}: pending indentation ends at {sorted(set(drift))} instead of its initial value',
                          loc=fn['loc'], fn=fn['id'])
